@@ -1112,3 +1112,57 @@ mutant("url-nurimaze-mark-code", "C16", "cspuz/puzzle/nurimaze.py", "           
 mutant("rng-pinned-generator-ambient", "C19", "cspuz/puzzle/masyu.py", ["import sys\nimport subprocess\n", "        clue_penalty=lambda problem: count_non_default_values(problem, default=0, weight=10),\n        verbose=verbose,\n    )\n    return generated\n\n\nMASYU_COMBINATOR"],
        ["import random\nimport sys\nimport subprocess\n", "        clue_penalty=lambda problem: count_non_default_values(problem, default=0, weight=10 + random.randint(0, 1)),\n        verbose=verbose,\n    )\n    return generated\n\n\nMASYU_COMBINATOR"], "RNG-9")
 variant("rng-pinned-generator-import-only", "C19", "cspuz/puzzle/masyu.py", "import sys\nimport subprocess\n", "import random  # noqa: F401\nimport sys\nimport subprocess\n", "an unused import draws nothing")
+mutant("ref-e-no-variables-shortcut", "C02", SOLVER, """        if not any(self.is_answer_key):
+            warnings.warn("no answer key is given")
+        backend_type = _get_backend(backend)""", """        if not any(self.is_answer_key):
+            warnings.warn("no answer key is given")
+        if len(self.variables) == 0:
+            return True
+        backend_type = _get_backend(backend)""", "REF-E")
+
+# ---- round 7 ---------------------------------------------------------------------------------------
+mutant("z3m-constant-false-filtered", "C01", Z3, "        solver.add(self.converted_constraints)", "        solver.add([c for c in self.converted_constraints if z3.is_expr(c)])", "Z3M-3")
+variant("z3m-constraints-added-one-by-one", "C01", Z3, "        solver.add(self.converted_constraints)", "        for c in self.converted_constraints:\n            solver.add(c)")
+mutant("sgr-list-batch-replaces", "C03", SUGAR, "            self.converted_constraints += map(_convert_expr, constraint)", "            self.converted_constraints = list(map(_convert_expr, constraint))", "SGR-5")
+variant("sgr-list-batch-extend", "C03", SUGAR, "            self.converted_constraints += map(_convert_expr, constraint)", "            self.converted_constraints.extend(_convert_expr(c) for c in constraint)")
+mutant("cfg-fallback-first-solve-default-backend", ["C20", "C02"], SOLVER, """        if not csp_solver.solve():
+            # inconsistent problem""", """        if not self.find_answer():
+            # inconsistent problem""", "CFG-1")
+mutant("gen-symmetric-adjacency-manhattan", "C19", GBUILD, "                    if (y2 - y, x2 - x) in self.disallow_adjacent:", "                    if self.disallow_adjacent and abs(y2 - y) + abs(x2 - x) == 1:", "GEN-2")
+mutant("seg-one-line-split-by-slice", "C18", GSEG, """                if len(block) >= self.min_block_size * 2:
+""", """                if len(block) >= self.min_block_size * 2:
+                    if height == 1 or width == 1:
+                        for k in range(self.min_block_size, len(block) - self.min_block_size + 1):
+                            ret.append(([i], [block[:k], block[k:]]))
+                        continue
+""", "SEG-E")
+mutant("ench-grid-graph-cached-by-size", ["C04", "C08"], GRAPH, """def _grid_graph(height: int, width: int) -> Graph:
+    graph = Graph(height * width)
+""", """_GRID_GRAPHS: dict = {}
+
+
+def _grid_graph(height: int, width: int) -> Graph:
+    if height * width in _GRID_GRAPHS:
+        return _GRID_GRAPHS[height * width]
+    graph = _GRID_GRAPHS[height * width] = Graph(height * width)
+""", "ENC-H")
+variant("ench-grid-graph-cached-by-shape", ["C04", "C08"], GRAPH, """def _grid_graph(height: int, width: int) -> Graph:
+    graph = Graph(height * width)
+""", """_GRID_GRAPHS: dict = {}
+
+
+def _grid_graph(height: int, width: int) -> Graph:
+    if (height, width) in _GRID_GRAPHS:
+        return _GRID_GRAPHS[(height, width)]
+    graph = _GRID_GRAPHS[(height, width)] = Graph(height * width)
+""", "a memo keyed by the whole argument is correct")
+mutant("opc6a-elementwise-flattens-sub", "C12", ARRAY, """        if bool_op:
+            res.append(BoolExpr(op, expr_operands))""", """        if op in (Op.ADD, Op.SUB):
+            expr_operands = [y for x in expr_operands for y in (x.operands if isinstance(x, IntExpr) and x.op == op else [x])]
+        if bool_op:
+            res.append(BoolExpr(op, expr_operands))""", "OPC-6A")
+variant("opc6a-elementwise-flattens-add", "C12", ARRAY, """        if bool_op:
+            res.append(BoolExpr(op, expr_operands))""", """        if op == Op.ADD:
+            expr_operands = [y for x in expr_operands for y in (x.operands if isinstance(x, IntExpr) and x.op == op else [x])]
+        if bool_op:
+            res.append(BoolExpr(op, expr_operands))""", "addition is associative: flattening it keeps every element's value")
